@@ -6,7 +6,6 @@ import (
 	"io"
 	"sync"
 
-	goat "github.com/avos-io/goat"
 	"google.golang.org/grpc"
 
 	"goatverif/bed"
@@ -261,15 +260,15 @@ func c09Run(tier string, seed int64, idx int) *core.Result {
 		}
 		if st == "ok" {
 			failNow()
-			settle(tier, func() bool { return goat.VerifClientReadErr(cc) != nil })
+			settle(tier, func() bool { return readErrSet(cc) })
 			res.Stat("register_window_rendezvous", 1)
 		}
 		close(winRelease)
 	case "after":
-		settle(tier, func() bool { return goat.VerifClientReadErr(cc) != nil })
-		if goat.VerifClientReadErr(cc) == nil {
+		settle(tier, func() bool { return readErrSet(cc) })
+		if !readErrSet(cc) {
 			failNow() // scenario finished before reaching Pos responses
-			settle(tier, func() bool { return goat.VerifClientReadErr(cc) != nil })
+			settle(tier, func() bool { return readErrSet(cc) })
 		}
 		for i, spec := range []c09Call{{Kind: "unary"}, {Kind: "bidi", N: 1}, {Kind: "server", M: 1}, {Kind: "client", N: 1}} {
 			late = append(late, startCall(spec, fmt.Sprintf("c9-%d-late%d", idx, i)))
@@ -292,7 +291,7 @@ func c09Run(tier string, seed int64, idx int) *core.Result {
 		return true
 	}
 	st, snap := settle(tier, allDoneLate)
-	if st == "stuck" && goat.VerifClientReadErr(cc) == nil {
+	if st == "stuck" && !readErrSet(cc) {
 		// the whole scenario completed without reaching the failure position and something
 		// is parked (cannot happen for position <= L); make the failure happen and look again
 		failNow()
@@ -333,7 +332,7 @@ func c09Run(tier string, seed int64, idx int) *core.Result {
 				}
 			}
 		}
-		failed := goat.VerifClientReadErr(cc) != nil
+		failed := readErrSet(cc)
 		for _, r := range all {
 			id, known := tagID[r.tag]
 			var outcome error
